@@ -13,20 +13,21 @@ def design_check(scratch, tier="quick"):
     with cf.ThreadPoolExecutor(max_workers=4) as ex:
         if tier != "quick":
             jobs["Proxy_MCbig"] = ex.submit(C.tlc, scratch, "Proxy_MC.tla", "Proxy_MCbig.cfg", 4, None, 3000, None, None, "Proxy_MCbig")
-        for n in ["Proxy_MC", "Proxy_Direct", "Proxy_Neg_NoHalfClose", "Proxy_Neg_FirstMessage", "Proxy_Neg_JoinBeforeError"]:
+            jobs["Proxy_MCpinnedbig"] = ex.submit(C.tlc, scratch, "Proxy_MC.tla", "Proxy_MCpinnedbig.cfg", 4, None, 3000, None, None, "Proxy_MCpinnedbig")
+        for n in ["Proxy_MC", "Proxy_MCpinned", "Proxy_Direct", "Proxy_Neg_NoHalfClose", "Proxy_Neg_FirstMessage", "Proxy_Neg_JoinBeforeError", "Proxy_Neg_FirstSendEOF"]:
             jobs[n] = ex.submit(C.tlc, scratch, "Proxy_MC.tla", n + ".cfg", 2, None, 900, None, None, n)
         res = {k: f.result() for k, f in jobs.items()}
     states = trans = 0
-    for n in ["Proxy_MC", "Proxy_Direct"] + (["Proxy_MCbig"] if tier != "quick" else []):
+    for n in ["Proxy_MC", "Proxy_MCpinned", "Proxy_Direct"] + (["Proxy_MCbig", "Proxy_MCpinnedbig"] if tier != "quick" else []):
         C.tlc_ok(res[n], n)
         if C.tlc_violated(res[n]):
             raise C.Infra("%s violated:\n%s" % (n, res[n]["out"][-2000:]))
         states += res[n]["distinct"]
         trans += res[n]["generated"]
-    for n in ["Proxy_Neg_NoHalfClose", "Proxy_Neg_FirstMessage", "Proxy_Neg_JoinBeforeError"]:
+    for n in ["Proxy_Neg_NoHalfClose", "Proxy_Neg_FirstMessage", "Proxy_Neg_JoinBeforeError", "Proxy_Neg_FirstSendEOF"]:
         if not C.tlc_violated(res[n]):
             raise C.Infra("vacuity guard %s found no violation" % n)
-    return dict(states=states, transitions=trans, neg_guards=3)
+    return dict(states=states, transitions=trans, neg_guards=4)
 
 
 def build_cases(scratch, rnd, tier):
@@ -73,20 +74,31 @@ def build_cases(scratch, rnd, tier):
                 c = dict(s)
                 c.update(shape=shape, code=5, det=0, wait=True)   # the backend speaks first, the client waits for it
                 cases.append(c)
+    # schedule: the backend has ended the stream before the front forwards the first message (Proxy.tla FSendFirst
+    # with bpc = "done") - possible whenever the script lets the backend finish without reading
+    slow = []
+    for c in cases:
+        if c["mode"] == "batch" and c["shape"] in ("cstream", "bidi") and c["n"] >= 1 and not c["wait"] and \
+                (c["failAt"] == "before" or (c["readN"] == 0 and c["failAt"] != "afterEOF")):
+            d = dict(c)
+            d["slowopen"] = True
+            slow.append(d)
+    cases += slow
     for c in cases:
         c.update(gzip=False, rsize=0, qsize=0, qat=0)
+        c.setdefault("slowopen", False)
     # a compressing client: replies of every small size (the gzip form of a short or random message is larger than the
     # message, so buffers regrow), unary and streamed
     sizes = list(range(1, 140, 3)) + [250, 255, 256, 257, 500, 510, 1000, 1020, 4090]
     for rs in (sizes if tier != "quick" else rnd.sample(sizes, 16) + [31, 45, 59, 100, 120]):
         for shape, n, rj in (("unary", 1, 1), ("sstream", 1, 3), ("bidi", 2, 2)):
             cases.append(dict(n=n, readN=99, replyJ=rj, failAt="never", mode="batch", failK=0, shape=shape, code=0, det=0, wait=False,
-                              gzip=True, rsize=rs, qsize=0, qat=0))
+                              gzip=True, rsize=rs, qsize=0, qat=0, slowopen=False))
     # a request of exactly the default receive limit (4 MiB), and one byte less: first and second message
     for qs in (4194303, 4194304):
         for shape, n, qat in (("unary", 1, 1), ("cstream", 1, 1), ("cstream", 3, 2)):
             cases.append(dict(n=n, readN=99, replyJ=1, failAt="never", mode="batch", failK=0, shape=shape, code=0, det=0, wait=False,
-                              gzip=False, rsize=0, qsize=qs, qat=qat))
+                              gzip=False, rsize=0, qsize=qs, qat=qat, slowopen=False))
     for i, c in enumerate(cases):
         c["id"] = i + 1
     return cases
@@ -248,13 +260,14 @@ def run(prop, tier, replay=None):
             if kf:
                 known[kf["id"]] += 1
                 continue
-            key = (formula, s["shape"], s["mode"], s["n"] == 0, s["wait"], s["failAt"], ev["http" if front == "http" else "proxied"]["hang"])
+            key = (formula, s["shape"], s["mode"], s["n"] == 0, s["wait"], s["failAt"], ev["http" if front == "http" else "proxied"]["hang"], bool(s.get("slowopen")))
             if key in viol:
                 viol[key]["more"] += 1
                 continue
             viol[key] = dict(property=prop, formula=formula, seed=seed, cases=[by_id[case]], observed=ev, signature=sig, more=0, replay_driver="proxy",
-                             what="%s: %s %s n=%d readN=%d replies=%d failAt=%s failK=%d code=%d wait=%s: direct %s vs proxied %s" % (
-                                 formula, s["shape"], s["mode"], s["n"], s["readN"], s["replyJ"], s["failAt"], s["failK"], s["code"], s["wait"],
+                             what="%s: %s %s%s n=%d readN=%d replies=%d failAt=%s failK=%d code=%d wait=%s: direct %s vs proxied %s" % (
+                                 formula, s["shape"], s["mode"], " (backend ends before the first message is forwarded)" if s.get("slowopen") else "",
+                                 s["n"], s["readN"], s["replyJ"], s["failAt"], s["failK"], s["code"], s["wait"],
                                  {k: ev["direct"][k] for k in ("replies", "code", "bgot", "hang")},
                                  {k: ev["http" if front == "http" else "proxied"][k] for k in ("replies", "code", "msgequal", "detequal", "bgot", "bcalls", "hang", "mdok", "err")}))
         for fid, nn in sorted(known.items()):
